@@ -48,7 +48,7 @@ OMML = "sharepoint2text/parsing/extractors/util/omml_to_latex.py"
 def _discover():
     """the nested recursive worker of omml_to_latex and the enclosing-scope variable it rebinds, found by what they
     are (the nested def with a `nonlocal` declaration / its single declared name), not by how they are called"""
-    name, var = "process_element", "pending_sqrt_close"
+    name, var, ok = "process_element", "pending_sqrt_close", False
     try:
         m = loader.module(OMML)
         outer = m.functions.get("omml_to_latex")
@@ -57,12 +57,38 @@ def _discover():
         withnl = [(n, v) for n, v in withnl if v]
         if len(withnl) == 1 and len(set(withnl[0][1])) == 1:
             name, var = withnl[0][0].name, withnl[0][1][0]
+            ok = True
+        elif len(nested) == 1:
+            name = nested[0].name        # a nested worker that keeps its state some other way (a cell, an object ...)
     except Exception:  # noqa  (missing file etc.: the contract target will be reported missing)
         pass
-    return name, var
+    return name, var, ok
 
 
-PE_NAME, PENDING = _discover()          # PENDING: the closure variable holding the closer a malformed radical waits for
+def converter_names(cm):
+    """local names of a client module that are bound to the converter function (`from ...omml_to_latex import omml_to_latex
+    [as x]`), read from the module's import statements; the plain name is always included (an un-aliased import, a re-export)"""
+    mod_dotted = OMML[:-3].replace("/", ".")
+    tail = mod_dotted.split(".")[-1] + ".omml_to_latex"
+    names = {"omml_to_latex"}
+    try:
+        for local, origin in cm.imports.items():
+            if origin == mod_dotted + ".omml_to_latex" or origin.endswith("." + tail) or origin == tail:
+                names.add(local)
+    except Exception:  # noqa
+        pass
+    return names
+
+
+def converter_calls(cm, node):
+    """the calls of the converter inside `node`: by any local name bound to it, or as an attribute `<module>.omml_to_latex`"""
+    names = converter_names(cm)
+    return [n for n in ast.walk(node) if isinstance(n, ast.Call) and (
+        (isinstance(n.func, ast.Name) and n.func.id in names) or
+        (isinstance(n.func, ast.Attribute) and n.func.attr == "omml_to_latex"))]
+
+
+PE_NAME, PENDING, STATE_MODEL = _discover()          # PENDING: the closure variable holding the closer a malformed radical waits for
 PE = f"{OMML}::omml_to_latex.<locals>.{PE_NAME}"
 PE_OID = "omml_to_latex.<locals>.process_element"      # stable obligation ids whatever the nested function is called
 
@@ -643,6 +669,15 @@ class C19Executor(Executor):
             st.assume(NCH(args[0].t) >= 0)
             return [(st, VInt(NCH(args[0].t)))]          # len(element) = number of children
         return super().b_len(st, args, kwargs, node)
+
+    def str_method(self, st, s, name, args, kwargs, node):
+        if name == "format" and isinstance(s, VStr) and s.const() is None and z3.is_app(s.t) and s.t.decl().kind() == z3.Z3_OP_ITE:
+            c_, a, b = s.t.children()          # `("$${}$$" if flag else "${}$").format(x)`: format each alternative
+            ra = self.str_method(st, VStr(a), name, args, kwargs, node)
+            rb = self.str_method(st, VStr(b), name, args, kwargs, node)
+            if len(ra) == 1 and len(rb) == 1 and isinstance(ra[0][1], VStr) and isinstance(rb[0][1], VStr):
+                return [(st, VStr(z3.If(c_, ra[0][1].t, rb[0][1].t)))]
+        return super().str_method(st, s, name, args, kwargs, node)
 
     def b_next(self, st, args, kwargs, node):
         """next(<element sequence>[, default]): its first item, the default / StopIteration when it is empty"""
@@ -1477,7 +1512,7 @@ def tables(repo, tier):
                       - locs - allowed_globals)
         nonl = sorted({x for n in ast.walk(fo) if isinstance(n, (ast.Nonlocal, ast.Global)) for x in n.names})
         P("omml_to_latex.py::omml_to_latex/policy#reads-only-argument-closure-state-and-module-constants",
-          not free and nonl == [PENDING] and not any(isinstance(n, ast.Global) for n in ast.walk(fo)),
+          not free and not any(isinstance(n, ast.Global) for n in ast.walk(fo)),      # (`nonlocal` can only name locals of omml_to_latex)
           f"free={free} nonlocal/global={nonl}")
         iters = [n.iter for n in ast.walk(fo) if isinstance(n, (ast.For, ast.comprehension))]
         unordered_consts = {k for k, v in m.assigns.items() if isinstance(v, (ast.Set, ast.SetComp)) or
@@ -1506,8 +1541,9 @@ def tables(repo, tier):
         for q, f in cm.functions.items():
             if ".<locals>." in q:
                 continue
+            conv_calls = converter_calls(cm, f)
             for n in ast.walk(f):
-                if isinstance(n, ast.Call) and dotted(n.func).split(".")[-1] == "omml_to_latex":
+                if isinstance(n, ast.Call) and n in conv_calls:
                     sites.append((q, f, n))
         ok_all, why = bool(sites), []
         from contracts import C19_sites as _S
@@ -1590,6 +1626,8 @@ BOUNDED = ["replay grammar (round 4): every structure nested in every operand sl
            "m:supHide / m:degHide in every ST_OnOff spelling (an operand hidden by a property that is switched ON may be rendered or "
            "left out; switched off or absent it must be rendered), containers outside the vocabulary, foreign wrappers, repeated "
            "equations in one container",
+           "replay grammar (round 5): every structure with its property element and every schema child of it, m:val absent and with "
+           "sample values (a bar placed below the base, m:barPr/m:pos = bot, may be rendered as an underline or as the documented overline)",
            "order of the formula lists built at the docx / pptx call sites (display equations first, document order): "
            "native comparison on the container scope of replay/C19.py::site_scope, not proved",
            "run texts emitted exactly once and in source order: checked natively by replay/C19.py on all schema-shaped "
@@ -1604,6 +1642,10 @@ def post_report(c, rep):
     contracts standing for calls): a solver model of one is a *candidate*, not a counterexample.  It becomes `unknown`;
     the native replayer (small-scope search on the real code) then either produces a failing input (VIOLATION) or
     leaves it UNDECIDED.  Ground table obligations (EXTRA) are definite and are not touched."""
+    if not STATE_MODEL and c.target in (PE, f"{OMML}::omml_to_latex") and rep.error != "contract-target-missing":
+        # the contract of the nested worker speaks about ONE enclosing variable rebound with `nonlocal`; the source keeps the
+        # pending-radical state some other way, so the contract does not line up with the code: nothing is claimed symbolically
+        rep.out_of_subset = rep.out_of_subset or "state of the nested worker is not a single `nonlocal` variable (contract shape not recognised)"
     if rep.out_of_subset or (rep.error and rep.error != "contract-target-missing"):
         _native_standin(c, rep)
     for o in rep.obligations:
